@@ -25,7 +25,8 @@ KEEP_REFILL = KEEP_REFILL0 + ['g_firing', 'retries']
 @spec
 def live(self: Ref['mqtt.client.pubsubs.MQTTProtocol']) -> bool:
     """the invariant of an established connection"""
-    return inv(self) and alarms_set(self) and is_list_bytes(self.transport.tr_out) and is_none(self.g_firing)
+    return (inv(self) and alarms_set(self) and is_list_bytes(self.transport.tr_out) and is_none(self.g_firing)
+            and (is_none(self.onPublish) or is_func(self.onPublish)))
 
 
 # ---------------------------------------------------------------- SUBACK
